@@ -21,7 +21,7 @@ class ScriptSource:
     def __init__(self, script):
         self.script = list(script)
         self.n = 0
-        self.drain_cap = 6000 if any("num=1" in x and len(x.split("num=")[1].split()[0]) >= 3 for x in script
+        self.drain_cap = 6000 if any(int(x.split("num=")[1].split()[0]) >= 50 for x in script
                                      if isinstance(x, str) and "num=" in x) else 400
 
     def next(self, run):
@@ -150,6 +150,17 @@ SCENARIOS += [
   + [x for t in range(135) if t not in (0, 7, 64, 127, 128, 134) for x in (f"relcb tid={t}",)] + ["drain"],
   "gather_and_close() over more than 128 tasks while tasks change registry (finish, slow end "
   "callbacks, cancel_all) during its wait"),
+]
+
+SCENARIOS += [
+ ("bulk_cancel_over_64_ids", "common", CFGI,
+  [AP.format(n=70, w="sp", e="n", c="s0"), "drain",
+   "cancel ids=" + ",".join(str(i) for i in range(70)), "drain",
+   AP.format(n=3, w="sp", e="n", c="n"), "drain", "cancelall", "drain"],
+  "one cancel() call naming 70 running tasks: every one of them observes its CancelledError"),
+ ("bulk_stop_all_over_64", "common", dict(size="inf", kind="simple", bad="0", w="sp", ecb="n", ccb="n"),
+  ["start num=70", "drain", "stop n=66", "drain", "start num=2", "drain", "stopall", "drain"],
+  "stop(66) / stop_all() over more than 64 running tasks"),
 ]
 
 if __name__ == "__main__":
